@@ -117,6 +117,22 @@ class Textgrid:
         if tier.name in self.tierNames:
             raise errors.TierNameExistsError("Tier name already in tier")
 
+        # Report span changes before anything is modified: if the reporter
+        # raises, the textgrid must be left as it was
+        minV = tier.minTimestamp
+        if self.minTimestamp is not None and minV < self.minTimestamp:
+            errorReporter(
+                errors.TextgridStateAutoModified,
+                f"Minimum timestamp in Textgrid changed from ({self.minTimestamp}) to ({minV})",
+            )
+
+        maxV = tier.maxTimestamp
+        if self.maxTimestamp is not None and maxV > self.maxTimestamp:
+            errorReporter(
+                errors.TextgridStateAutoModified,
+                f"Maximum timestamp in Textgrid changed from ({self.maxTimestamp}) to ({maxV})",
+            )
+
         if tierIndex is None:
             self._tierDict[tier.name] = tier
         else:  # Need to recreate the tierDict with the new order
@@ -129,21 +145,9 @@ class Textgrid:
                 newTierDict[tmpName] = self.getTier(tmpName)
             self._tierDict = newTierDict
 
-        minV = tier.minTimestamp
-        if self.minTimestamp is not None and minV < self.minTimestamp:
-            errorReporter(
-                errors.TextgridStateAutoModified,
-                f"Minimum timestamp in Textgrid changed from ({self.minTimestamp}) to ({minV})",
-            )
         if self.minTimestamp is None or minV < self.minTimestamp:
             self.minTimestamp = minV
 
-        maxV = tier.maxTimestamp
-        if self.maxTimestamp is not None and maxV > self.maxTimestamp:
-            errorReporter(
-                errors.TextgridStateAutoModified,
-                f"Maximum timestamp in Textgrid changed from ({self.maxTimestamp}) to ({maxV})",
-            )
         if self.maxTimestamp is None or maxV > self.maxTimestamp:
             self.maxTimestamp = maxV
 
